@@ -223,36 +223,57 @@ def c04_5(ctx, r):
 
 @rule(P, "C04.6", "T1+T11", "unflagged jobs are unblocked whatever the outcome of their blockers", min_obligations=2)
 def c04_6(ctx, r):
+    """Partial evaluation over the finite abstraction {flag unset} x {has remaining blockers}: with the
+    FLAG atom fixed to False and HAS_BLOCKERS to True, every path of one iteration reaches the blocker
+    removal, whichever way the tests on the failed set / return codes go (membership of the completed name
+    in the entry's blocking set is the only other condition allowed to skip it)."""
     for spec, removal in ((SUB, "difference_update"), (NODE, "remove_blocking_job")):
         fn = ctx.fn(spec, "C04.6")
         cfg = ctx.cfg(fn)
         rems = [(n, c) for n in cfg.nodes for c in cfg.calls_at(n) if isinstance(c.func, ast.Attribute) and c.func.attr == removal]
         if not rems:
-            raise AnalysisError("C04.6", f"{fn.short}: blocker removal `{removal}` not found")
-        for n, c in rems:
-            loops = ctx.enclosing(fn, c, (ast.For,))
-            head = [x for x in cfg.nodes if x.kind == "for" and x.ast is loops[0]][0]
-            npaths, with_flag_false, tainted = 0, 0, []
-            # acyclic paths head -iter-> ... -> n
-            stack = [(d, [(head, "iter", None)], {head.id}) for d, k, _ in head.succ if k == "iter"]
-            while stack:
-                cur, path, vis = stack.pop()
-                if cur is n:
-                    npaths += 1
-                    conds = [norm(ctx, fn, cc, nn, pol=(kk == "T")) for nn, kk, cc in path if kk in ("T", "F") and cc is not None]
-                    flag_false = any(_abstract(f) == "FLAG" and p is False for f, p in conds)
-                    if flag_false:
-                        with_flag_false += 1
-                        bad = [f for f, p in conds if "failed" in f or "return_code" in f]
-                        if bad:
-                            tainted.append(bad)
+            r.bad(key_of(fn, "no blocker removal"), fn.loc(), f"{fn.short} never removes finished blockers (`{removal}`): every dependent job stays blocked for ever", "A job without the flag is started once its blockers have outcomes")
+            continue
+        rem_ids = {n.id for n, _ in rems}
+        n0, c0 = rems[0]
+        loops = ctx.enclosing(fn, c0, (ast.For,))
+        head = [x for x in cfg.nodes if x.kind == "for" and x.ast is loops[0]][0]
+        # explore one iteration with FLAG=False, HAS_BLOCKERS=True; stop at the removal
+        bad_path = None
+        npaths = 0
+        stack = [(d, ((head, "iter", None),)) for d, k, _ in head.succ if k == "iter"]
+        seen = set()
+        while stack:
+            cur, path = stack.pop()
+            if cur.id in rem_ids:
+                npaths += 1
+                continue
+            if cur is head or cur is cfg.exit:
+                npaths += 1
+                bad_path = path
+                continue
+            if (cur.id, len(path) > 60) in seen and len(path) > 60:
+                continue
+            if any(cur is p[0] for p in path):
+                continue
+            for d, k, cc in cur.succ:
+                if k not in NORMAL_KINDS:
                     continue
-                if cur.id in vis or npaths > 500:
-                    continue
-                for d, k, cc in cur.succ:
-                    if k in NORMAL_KINDS:
-                        stack.append((d, path + [(cur, k, cc)], vis | {cur.id}))
-            ctx.counters["paths"] += npaths
-            r.check(with_flag_false > 0 and not tainted, f"{fn.short}: with the flag unset the removal is reached without any test of the failed set / return codes", key_of(fn, "unflagged removal depends on outcome"), fn.loc(c),
-                    f"paths to the blocker removal with cancel_on_blocking_job_failure unset: {with_flag_false}, of which {len(tainted)} evaluate {tainted[:1]}: an unflagged job stays blocked (or is treated differently) when a blocker failed",
-                    "A job without the flag is started once its blockers have outcomes, whatever those outcomes are", paths=npaths, flag_false_paths=with_flag_false)
+                if k in ("T", "F") and cc is not None:
+                    form, pol = norm(ctx, fn, cc, cur, pol=(k == "T"))
+                    tok = _abstract(form)
+                    if tok == "FLAG" and pol is True:
+                        continue  # flag is unset
+                    if tok == "HAS_BLOCKERS" and pol is False:
+                        continue  # the job has remaining blockers
+                    if pol is False and (form.endswith(" in blocking_jobs") or form.endswith("in call:AsyncJobInterface.get_blocking_jobs()@job")):
+                        continue  # the completed name is one of its blockers
+                stack.append((d, path + ((cur, k, cc),)))
+        ctx.counters["paths"] += npaths
+        desc = ""
+        if bad_path is not None:
+            conds = [("" if kk == "T" else "not ") + ctx.src(cc) for nn, kk, cc in bad_path if kk in ("T", "F") and cc is not None]
+            desc = " and ".join(conds)
+        r.check(bad_path is None and npaths > 0, f"{fn.short}: with the flag unset every path of an iteration reaches the blocker removal", key_of(fn, "unflagged job not unblocked on a path"), fn.loc(c0),
+                f"with cancel_on_blocking_job_failure unset and blockers remaining, the iteration can end without removing finished blockers (path: {desc}): an unflagged job whose blocker failed stays blocked for ever",
+                "A job without the flag is started once its blockers have outcomes, whatever those outcomes are", paths=npaths)
